@@ -11,7 +11,7 @@ THEOREMS = ["C02_stream_ends_with_finish_partial", "C02_codec_roundtrip_linear",
             "C02_stream_at_offset_partial", "C02_call_return_partial", "C02_double_break_fixed",
             "C02_track_at_offset_partial", "C02_track_shapes_convert", "C02_drum_call_return_partial",
             "C02_drum_routine_at_offset_partial", "C02_song_roundtrip_partial",
-            "C02_optimised_song_roundtrip_partial", "C02_optimised_song_roundtrip_nodrum_partial"]
+            "C02_optimised_song_roundtrip_partial", "C02_optimised_song_roundtrip_nodrum_partial", "optOriginal_of_B"]
 LEVEL = "proof"
 STREAM = "conv.events+conv.seq"
 CHUNK = 100
